@@ -51,6 +51,8 @@ func ageFact(ft eng.Fact, isValidity func(ast.Expr) bool) (ts ast.Expr, expired 
 		}
 		return nil
 	}
+	isValidity0 := isValidity
+	isValidity = func(e ast.Expr) bool { return isValidity0(e) || isValidity0(eng.ArgExpr(info, e)) }
 	if a := age(x); a != nil && isValidity(y) {
 		switch op {
 		case eng.GTR, eng.GEQ:
